@@ -99,6 +99,8 @@ def _calls(op, st, dtype, upper):
         if f in ("add", "sub"):
             Y = linear_operator.to_linear_operator(X) if v == 3 else X
             return [("torch.%s(op, X)" % f, getattr(torch, f)(op, Y)), ("op.%s(X)" % f, getattr(op, f)(Y))]
+        if f == "mul" and v >= 3:
+            return [("torch.mul(op, X)", torch.mul(op, X)), ("op.mul(X)", op.mul(X)), ("op * X", op * X)]
         if f in ("mul", "div"):
             c = float(X) if v == 1 else X
             return [("torch.%s(op, c)" % f, getattr(torch, f)(op, c)), ("op.%s(c)" % f, getattr(op, f)(c))]
